@@ -56,8 +56,8 @@ def gen(rng: Any, prop: str, tier: str) -> dict[str, Any]:
         sid = rng.choice(sids)
         tables = [t for t in g.all_tables() if t[2] != "PB"]
         kind = rng.choices(
-            ["create", "insert", "insert_cols", "insert_select", "update", "delete", "truncate", "select", "drop", "ddl", "bad", "write_pandas"],
-            [6 if len(tables) < 2 else 2, 16, 5, 4, 12, 10, 2, 6, 1, 2, 3, 3],
+            ["create", "insert", "insert_cols", "insert_select", "update", "delete", "truncate", "select", "drop", "ddl", "bad", "write_pandas", "executemany"],
+            [6 if len(tables) < 2 else 2, 16, 5, 4, 12, 10, 2, 6, 1, 2, 3, 3, 3],
         )[0]
         if kind == "create" or not tables:
             ncol = rng.randint(1, 4)
@@ -93,6 +93,12 @@ def gen(rng: Any, prop: str, tier: str) -> dict[str, Any]:
             index = rng.choice([None, [rng.randint(0, 1) for _ in range(n)], rng.sample(range(10, 10 + n), n)])
             st = {"t": "insert", "ref": list(fq), "rows": rows}
             g.ops.append({"s": sid, "k": "write_pandas", "table": fq[2], "database": fq[0], "schema": fq[1], "cols": [c["name"] for c in cols], "rows": rows, "index": index, "st": st})
+            g.m.apply(sid, st)
+        elif kind == "executemany":
+            # one INSERT per parameter row (values incl. NULL arrive as data); only the effect is constrained
+            rows = [g.row_for(cols, 0.2) for _ in range(rng.choice([1, 2, 3, 4]))]
+            st = {"t": "insert", "ref": list(fq), "rows": rows}
+            g.ops.append({"s": sid, "k": "executemany", "sql": f"INSERT INTO {'.'.join(fq)} VALUES ({', '.join(['%s'] * len(cols))})", "seqparams": rows, "st": st, "effect_only": True})
             g.m.apply(sid, st)
         elif kind == "insert_cols":
             sub = rng.sample(cols, rng.randint(1, len(cols)))
